@@ -4,6 +4,7 @@ import (
 	"encoding/base64"
 	"errors"
 	"fmt"
+	"math"
 
 	dtpb "github.com/google/fhir/go/proto/google/fhir/proto/r4/core/datatypes_go_proto"
 	"github.com/shopspring/decimal"
@@ -89,8 +90,14 @@ func From(input any) (Any, error) {
 	case *dtpb.Integer:
 		return Integer(v.Value), nil
 	case *dtpb.UnsignedInt:
+		if v.Value > math.MaxInt32 {
+			return nil, fmt.Errorf("%w: unsignedInt %v does not fit a System Integer", ErrCantBeCast, v.Value)
+		}
 		return Integer(v.Value), nil
 	case *dtpb.PositiveInt:
+		if v.Value > math.MaxInt32 {
+			return nil, fmt.Errorf("%w: positiveInt %v does not fit a System Integer", ErrCantBeCast, v.Value)
+		}
 		return Integer(v.Value), nil
 	case *dtpb.Decimal:
 		value, err := decimal.NewFromString(v.Value)
